@@ -126,7 +126,10 @@ package blockstore
 //@     ghost after call[close#0]: chclosed(out) := 1
 //@     ensures the_channel_is_closed_when_the_goroutine_ends [C07,C08]: chclosed(out) == 1
 //@     call[send#0] assert sends_the_collected_keys_in_order [C07,C08]: ref(arg0) == ref(out) && arg1 == keys[rangeindex]
-//@     call[maybeReportError#1] assert reports_the_walk_error [C02]: arg0 == ctx && arg1 == walkErr
+//@     call[maybeReportError#1] assert reports_the_walk_error [C02]: arg0 == ctx && arg1 == walkErr && walkErr != nil
+//@     ghost at entry: mark(out) := 0
+//@     ghost after call[maybeReportError#1]: mark(out) := 1
+//@     check a_walk_error_is_reported_after_the_keys [C02,C07]: walkErr != nil && rangeindex == len(keys) ==> mark(out) == 1
 //@   end
 //@   requires unlocked [C08]: held(b.ronly.mu) == 0
 //@   call[InsertionIndex.ForEachCid#0] assert walks_index_under_lock [C08]: held(b.ronly.mu) == 2
